@@ -16,7 +16,7 @@ from typing import Any, Dict, List, Optional, Sequence, Tuple
 from vf import reader, tables
 from vf.common import CaseResult, Check, Scratch, rng_for
 from vf.interpose import GlobalPatch, Interposer, ModuleProxy
-from vf.scenario import HINT, ClientLog, FlipLog, Template
+from vf.scenario import s3_weather, HINT, ClientLog, FlipLog, Template
 from vf.sched import PCT, RandomWalk, Scheduler, SchedEnv, Scripted, adopt, explore_bounded
 
 READ_APIS = ["scan", "scan_parallel", "scan_batches", "iter_records", "row_count", "scan_filter", "scan_noverify"]
@@ -151,6 +151,7 @@ class Exec:
             self.ip.after.append(flips.l1_after)
             if inst.store is not None:
                 inst.store.after.append(flips.s3_after)
+                s3_weather(case.get("weather"), inst.store, sched, actor="W0")
                 inst.store.keep_log = False
             try:
                 with SchedEnv(sched, self.ip, inst.store):
@@ -315,6 +316,13 @@ class C02(Check):
                 for sh in range(8):
                     yield {"mode": "dfs", "readers": [api], "writers": [w], "topology": topo, "backend": be, "k": 2,
                            "shard": sh, "nshards": 8, "nreads": 1 if be == "s3" else 2}
+        # object store: the response to W0's pointer PUT is lost / its retry answered 412 / the PUT refused - a reader
+        # must still see only whole committed snapshots, and no published version may be taken back
+        for w in ("lost_response", "applied_412", "503_before"):
+            for api in (["scan", "row_count"] if tier == "quick" else READ_APIS):
+                for wr in (["append"] if tier == "quick" else ["append", "delete", "multi"]):
+                    yield {"mode": "dfs", "readers": [api], "writers": [wr], "topology": "separate", "backend": "s3",
+                           "k": 1, "shard": 0, "nshards": 1, "nreads": 2, "weather": w}
         # readers racing the FIRST commit of an empty table
         for api in READ_APIS:
             for w in ("append", "multi"):
@@ -333,7 +341,8 @@ class C02(Check):
                    "readers": [rng.choice(READ_APIS) for _ in range(rng.choice([1, 2]))],
                    "writers": [rng.choice(WRITERS[:5] + ["delete_append"]) for _ in range(rng.choice([1, 2, 3]))],
                    "topology": rng.choice(["separate", "shared", "reader_shares_w0"]), "backend": rng.choice(["local", "local", "s3"]),
-                   "seed": seed * 100000 + i, "runs": 5 if tier == "quick" else 10}
+                   "seed": seed * 100000 + i, "runs": 5 if tier == "quick" else 10,
+                   "weather": rng.choice([None, None, "lost_response", "applied_412", "503_before"])}
 
     def run_case(self, case: Any, res: CaseResult, tier: str) -> None:
         if case["backend"] == "s3":
